@@ -304,6 +304,7 @@ func main() {
 	cli.Main(&cli.Property{
 		ID: "C20", Level: "model_checking", Scenarios: scenarios(),
 		QuickBound: 3, ThoroughBound: 4, Cache: true, Delay: true, QuickSecs: 45, ThoroughSecs: 900,
+		RaceHB: &cli.RaceHB{QuickBound: 1, ThoroughBound: 2},
 		Rule:        "every interleaving with at most b deviations (delay bounding; the order in which Start walks the worker map is an owned choice) of worker goroutines, BackgroundWorker, Start, Run, Shutdown and ShutdownAndWait callers on the real daemon with virtual contexts; oracle on the recorded log of worker start/return and context-cancel events; distinct = distinct (outcome, observation log)",
 		Assumptions: []string{"vcontext models context.WithCancel faithfully (cancellation closes Done through a visible operation)", "cancelling the context of a worker that has already returned is unobservable and not judged"},
 		NotReached:  []string{"more than 4 workers", "worker panics"},
